@@ -13,10 +13,17 @@
                            is reverted and skipped), chargeForGas at the end of the block.
 
   What is NOT computed here: bytecode, gas.  An execution is a TREE of frames; its shape, the operands of every
-  CALL* / CREATE / SELFDESTRUCT and how every frame's body ended (`Outcome`: ran to completion / REVERT / any other
-  error, out of gas included) are inputs — the harness records them with a vm.Tracer on the real engine.  Every BALANCE
-  and every success flag is computed by the model: the balance check of CanTransfer, the depth limit, the transfers,
-  self-destruct, the undo of the journal when a frame fails, the gas money of the transaction.
+  CALL* / CREATE / SELFDESTRUCT and how every frame's BODY ended BY ITSELF (`Outcome`: ran to completion / REVERT / any
+  other error, out of gas included) are inputs — the harness records them with a vm.Tracer on the real engine, the outcome
+  from the last step traced at the callee's own depth, NEVER from the success flag the caller saw.  A frame the engine
+  refused before it ran any code carries outcome `ok` and an empty body: whether it is refused is this model's decision.
+  Every BALANCE and every success flag is computed by the model: the balance check of CanTransfer (`blocked`), the depth
+  limit (`callCreateDepth`, the literal 1024 — reached on the real engine by the tie's self-recursive contracts), the
+  read-only refusals of CREATE / CALL-with-value / SELFDESTRUCT (`execBody`), the transfers, self-destruct, the undo of
+  the journal when a frame fails, the gas money of the transaction.  FED success facts (the model cannot know them):
+  the result of a PRECOMPILED contract (outcome `fail` when it returned an error), a failed code deposit of a creation
+  (recomputed by the harness from the RETURN step: size > 24576 or 200·size > gas left), CREATE onto a non-empty account
+  (address collision: outcome `fail`, empty body; the harness reads IsEmpty before the step).
 
   Core Lean only.  Tied to the code by the `evmv` op lines of `hx c05` (harness/hx/c05_evmvalue.go).
 -/
@@ -28,7 +35,8 @@ inductive Kind where
   | call | callcode | delegatecall | staticcall | create
   deriving DecidableEq, Repr
 
-/-- how the BODY of a frame ended (observed): `ok` = STOP / RETURN / SELFDESTRUCT / end of code / no code / a precompile
+/-- how the BODY of a frame ended BY ITSELF (observed at the callee's depth, not the caller's flag; a frame that was refused
+    at its entry or under write protection is sent with `ok`): `ok` = STOP / RETURN / SELFDESTRUCT / end of code / no code / a precompile
     that returned — and, for a creation, the code deposit was paid; `revert` = REVERT; `fail` = every other error (out of
     gas, invalid opcode, write protection, code-store out of gas, a failing precompile, …). -/
 inductive Outcome where
